@@ -53,57 +53,27 @@ Lemma keys_map_snd (f : N * V -> V) m : keys (map (fun p => (fst p, f p)) m) = k
 Proof. unfold keys. rewrite map_map. apply map_ext. reflexivity. Qed.
 End AssocLemmas.
 
-(* ---- the ghost observer: three scheduling patterns under which the C01 monitor is too strict ---------- *)
-(* g_unreg : an instance of process n was created (NewProcess) while an instance of a process that n DEPENDS ON
-             was between NewProcess and addRunningProcess (created by another request, not yet registered):
-             the monitor orders instances by creation, the code by registration.  (Creations of unrelated
-             processes may overlap freely; within Run()'s spawn loop this cannot happen at all.)
-   g_newer : a dependent resolved a dependency name to an instance that is not older than itself although an
-             older instance of that name exists (the dependency was restarted between the creation of the
-             dependent and its lookup): the monitor only accepts instances created before the dependent.
-   g_endov : a status of an instance was written that differs from the status of the latest onProcessEnd
+(* ---- the ghost observer: the one scheduling pattern under which the C01 monitor is still too strict ---------- *)
+(* g_endov : a status of an instance was written that differs from the status of the latest onProcessEnd
              entered for it, while the observer had not yet seen the instance end (two overlapping
              onProcessEnd executions, e.g. the stop of a Pending process racing with its own Skipped end):
              the observer's o_endst has one slot, so o_ended lags behind the done flag of the code. *)
-Record gst := mkG { g_unregd : list iid (* created, not yet registered *); g_unreg : bool; g_newer : bool; g_endov : bool }.
-Definition g0 : gst := mkG [] false false false.
-
-Definition has_older (o : obs) (k : name) (ix : nat) : bool :=
-  existsb (fun y => N.eqb (o_nm y) k && Nat.ltb (o_idx y) ix) (vals (oi o)).
-
-(* is an instance of one of the dependencies of process n created but not yet registered *)
-Definition dep_unregistered (cs : amap pconf) (o : obs) (g : gst) (n : name) : bool :=
-  existsb (fun j => memN (o_nm (oi_get o j)) (map fst (deps (conf_of cs n)))) (g_unregd g).
+Record gst := mkG { g_endov : bool }.
+Definition g0 : gst := mkG false.
 
 Definition g_step (cs : amap pconf) (o : obs) (g : gst) (te : tid * event) : gst :=
   match snd te with
-  | ENewInst i n =>
-      mkG (i :: g_unregd g) (g_unreg g || dep_unregistered cs o g n) (g_newer g) (g_endov g)
-  | ERegAdd i _ =>
-      mkG (removeN i (g_unregd g)) (g_unreg g) (g_newer g) (g_endov g)
-  | EDepWait k (Some j) =>
-      match get (fst te) (o_th o) with
-      | Some i => let ix := o_idx (oi_get o i) in
-                  mkG (g_unregd g) (g_unreg g)
-                      (g_newer g || (negb (Nat.ltb (o_idx (oi_get o j)) ix) && has_older o k ix)) (g_endov g)
-      | None => g
-      end
   | EState i s0 =>
       let x := oi_get o i in
-      mkG (g_unregd g) (g_unreg g) (g_newer g)
-          (g_endov g || match o_endst x with Some s1 => negb (status_eqb s1 s0) && negb (o_ended x) | None => false end)
+      mkG (g_endov g || match o_endst x with Some s1 => negb (status_eqb s1 s0) && negb (o_ended x) | None => false end)
   | _ => g
   end.
 
-Definition gbad (g : gst) : bool := g_unreg g || g_newer g || g_endov g.
+Definition gbad (g : gst) : bool := g_endov g.
 
 Lemma gbad_mono cs o g te : gbad g = true -> gbad (g_step cs o g te) = true.
 Proof.
-  unfold gbad, g_step. destruct te as [th e]. cbn [fst snd]. intros H.
-  destruct (g_unreg g) eqn:A; destruct (g_newer g) eqn:B; destruct (g_endov g) eqn:C; try discriminate H;
-  destruct e; cbn; rewrite ?A, ?B, ?C; cbn; try reflexivity;
-  repeat match goal with |- context[match ?x with _ => _ end] => destruct x; cbn; rewrite ?A, ?B, ?C; cbn end;
-  rewrite ?orb_true_r; reflexivity.
+  unfold gbad, g_step. destruct te as [th e]. cbn [fst snd]. intros H. destruct e; cbn; try exact H. now rewrite H.
 Qed.
 
 (* the pair (observer, ghost) folded over a history *)
@@ -111,15 +81,18 @@ Definition og_step (cs : amap pconf) (og : obs * gst) (te : tid * event) : obs *
   (obs_step cs (fst og) te, g_step cs (fst og) (snd og) te).
 Definition og_final (cs : amap pconf) (evs : list (tid * event)) : obs * gst :=
   fold_left (og_step cs) evs (obs0 cs, g0).
-(* the decidable scheduling hypothesis of C01_main_partial *)
+(* the decidable side condition of C01_main_partial: no two overlapping onProcessEnd executions with different statuses *)
 Definition sched_ok_C01 (cs : amap pconf) (evs : list (tid * event)) : bool := negb (gbad (snd (og_final cs evs))).
 
 Lemma og_final_fst cs evs og : fst (fold_left (og_step cs) evs og) = fold_left (obs_step cs) evs (fst og).
 Proof. revert og. induction evs as [|e r IH]; intros og; cbn; [reflexivity|]. now rewrite IH. Qed.
 
 (* ---- observer invariant -------------------------------------------------------------------------------- *)
-Definition Oinv (o : obs) : Prop :=
-  NoDup (keys (oi o)) /\ forall j y, get j (oi o) = Some y -> o_idx y < o_cnt o.
+Record Oinv (o : obs) : Prop := mkOinv {
+  oi_nodup : NoDup (keys (oi o));
+  oi_idx : forall j y, get j (oi o) = Some y -> o_idx y < o_cnt o;
+  oi_wb : forall j y w, get j (oi o) = Some y -> In w (o_waits y) -> snd w <= o_cnt o;
+  oi_lk : forall th k b, get th (o_lk o) = Some (k, b) -> b <= o_cnt o }.
 
 (* after every step: an ended instance whose name reports code 0 is marked successful *)
 Definition Refreshed (o : obs) : Prop :=
@@ -138,47 +111,66 @@ Lemma refreshed_step cs o te : Refreshed (obs_step cs o te).
 Proof. destruct te as [th e]. unfold obs_step. apply refreshed_refresh. Qed.
 
 (* ---- what the observer never forgets -------------------------------------------------------------------- *)
-Definition oinst_le (e : event) (j : iid) (y y' : oinst) : Prop :=
-  o_nm y' = o_nm y /\ o_idx y' = o_idx y /\
+(* c is the registration counter before the step *)
+Definition oinst_le (e : event) (c : nat) (j : iid) (y y' : oinst) : Prop :=
+  o_nm y' = o_nm y /\
+  (o_reg y = true -> o_reg y' = true /\ o_idx y' = o_idx y) /\
+  (o_reg y' = true -> o_reg y = true \/ (o_idx y' = c /\ exists n, e = ERegAdd j n)) /\
+  (o_idx y' = o_idx y \/ (o_idx y' = c /\ exists n, e = ERegAdd j n)) /\
   (o_ended y = true -> o_ended y' = true) /\ (o_succ y = true -> o_succ y' = true) /\
   (o_logok y = true -> o_logok y' = true) /\ (o_started y = true -> o_started y' = true) /\
   (o_stopreq y = true -> o_stopreq y' = true) /\
-  (o_endst y' = o_endst y \/ exists s0, e = EProcEnd j s0 /\ o_endst y' = Some s0).
+  (o_endst y' = o_endst y \/ exists s0, e = EProcEnd j s0 /\ o_endst y' = Some s0) /\
+  (exists l, o_waits y' = o_waits y ++ l /\ (l = [] \/ exists k f, e = EDepWait k f)).
 
-Lemma oinst_le_refl e j y : oinst_le e j y y.
-Proof. unfold oinst_le. repeat split; auto. Qed.
+Lemma oinst_le_refl e c j y : oinst_le e c j y y.
+Proof. unfold oinst_le. repeat split; auto. exists []. rewrite app_nil_r. auto. Qed.
 
-Lemma oinst_le_trans e j y1 y2 y3 : oinst_le e j y1 y2 -> oinst_le e j y2 y3 -> oinst_le e j y1 y3.
+Lemma oinst_le_trans e c j y1 y2 y3 : oinst_le e c j y1 y2 -> oinst_le e c j y2 y3 -> oinst_le e c j y1 y3.
 Proof.
-  unfold oinst_le. intros (A1 & A2 & A3 & A4 & A5 & A6 & A7 & A8) (B1 & B2 & B3 & B4 & B5 & B6 & B7 & B8).
-  repeat split; try congruence; auto.
-  destruct B8 as [B8|B8]; [|now right]. rewrite B8. exact A8.
+  unfold oinst_le. intros (A1 & A2 & A3 & A0 & A4 & A5 & A6 & A7 & A8 & A9 & A10) (B1 & B2 & B3 & B0 & B4 & B5 & B6 & B7 & B8 & B9 & B10).
+  split; [congruence|]. split.
+  { intros H. destruct (A2 H) as [H2 E2]. destruct (B2 H2) as [H3 E3]. split; congruence. }
+  split.
+  { intros H. destruct (B3 H) as [H2|H2]; [|now right]. destruct (A3 H2) as [H1|[H1 H1']]; [now left|right].
+    destruct (B2 H2) as [_ E3]. split; [congruence|exact H1']. }
+  split.
+  { destruct B0 as [B|B]; [|right; exact B]. rewrite B. exact A0. }
+  split; [auto|]. split; [auto|]. split; [auto|]. split; [auto|]. split; [auto|]. split.
+  - destruct B9 as [B|B]; [|now right]. rewrite B. exact A9.
+  - destruct A10 as (l1 & E1 & D1). destruct B10 as (l2 & E2 & D2). exists (l1 ++ l2). split.
+    + rewrite E2, E1. now rewrite app_assoc.
+    + destruct D1 as [->|D1]; [|now right]. destruct D2 as [->|D2]; [now left|now right].
 Qed.
 
-Record ole (e : event) (o o' : obs) : Prop := mkOle {
-  ole_oi : forall j y, get j (oi o) = Some y -> exists y', get j (oi o') = Some y' /\ oinst_le e j y y';
+Record ole (e : event) (c : nat) (o o' : obs) : Prop := mkOle {
+  ole_oi : forall j y, get j (oi o) = Some y -> exists y', get j (oi o') = Some y' /\ oinst_le e c j y y';
   ole_none : forall j, get j (oi o) = None -> get j (oi o') = None;
   ole_on : forall n r, get n (onm o) = Some r ->
            exists r', get n (onm o') = Some r' /\ (r_ready r = true -> r_ready r' = true);
   ole_on_none : forall n, get n (onm o) = None -> get n (onm o') = None;
-  ole_cnt : o_cnt o' = o_cnt o;
-  ole_keys : keys (oi o') = keys (oi o) }.
+  ole_cnt : o_cnt o <= o_cnt o';
+  ole_keys : keys (oi o') = keys (oi o);
+  ole_lk : (forall n, e <> ERegGet n None) -> o_lk o' = o_lk o }.
 
-Lemma ole_refl e o : ole e o o.
+Lemma ole_refl e c o : ole e c o o.
 Proof. constructor; eauto using oinst_le_refl. Qed.
 
-Lemma ole_trans e o1 o2 o3 : ole e o1 o2 -> ole e o2 o3 -> ole e o1 o3.
+Lemma ole_trans e c o1 o2 o3 : ole e c o1 o2 -> ole e c o2 o3 -> ole e c o1 o3.
 Proof.
-  intros [A1 A2 A3 A4 A5 A6] [B1 B2 B3 B4 B5 B6]. constructor; try congruence; auto.
+  intros [A1 A2 A3 A4 A5 A6 A7] [B1 B2 B3 B4 B5 B6 B7]. constructor; try congruence; auto.
   - intros j y H. destruct (A1 j y H) as (y2 & H2 & L2). destruct (B1 j y2 H2) as (y3 & H3 & L3).
     exists y3. split; [exact H3|eapply oinst_le_trans; eauto].
   - intros n r H. destruct (A3 n r H) as (r2 & H2 & L2). destruct (B3 n r2 H2) as (r3 & H3 & L3).
     exists r3. split; auto.
+  - lia.
+  - intros Hn. rewrite (B7 Hn). auto.
 Qed.
 
-Lemma ole_eq e o o' : oi o' = oi o -> onm o' = onm o -> o_cnt o' = o_cnt o -> ole e o o'.
+Lemma ole_eq e c o o' : oi o' = oi o -> onm o' = onm o -> o_cnt o <= o_cnt o' ->
+  ((forall n, e <> ERegGet n None) -> o_lk o' = o_lk o) -> ole e c o o'.
 Proof.
-  intros A B C. constructor; rewrite ?A, ?B, ?C; eauto using oinst_le_refl.
+  intros A B C D. constructor; rewrite ?A, ?B; eauto using oinst_le_refl.
 Qed.
 
 Lemma keys_set_same {V} k (v v0 : V) (m : amap V) : get k m = Some v0 -> keys (set k v m) = keys m.
@@ -187,43 +179,52 @@ Proof.
   destruct (N.eqb_spec k' k); cbn; [subst; reflexivity|]. intros H. unfold keys in *. cbn. f_equal. now apply IH.
 Qed.
 
-Lemma ole_oi_upd e i f o : (forall y, oinst_le e i y (f y)) -> ole e o (oi_upd i f o).
+Lemma oi_upd_o_cnt i f o : o_cnt (oi_upd i f o) = o_cnt o.
+Proof. unfold oi_upd. now destruct (get i (oi o)). Qed.
+Lemma oi_upd_o_lk i f o : o_lk (oi_upd i f o) = o_lk o.
+Proof. unfold oi_upd. now destruct (get i (oi o)). Qed.
+Lemma on_upd_o_cnt n f o : o_cnt (on_upd n f o) = o_cnt o.
+Proof. unfold on_upd. now destruct (get n (onm o)). Qed.
+Lemma on_upd_o_lk n f o : o_lk (on_upd n f o) = o_lk o.
+Proof. unfold on_upd. now destruct (get n (onm o)). Qed.
+
+Lemma ole_oi_upd e c i f o : (forall y, oinst_le e c i y (f y)) -> ole e c o (oi_upd i f o).
 Proof.
   intros Hf. constructor.
   - intros j y H. rewrite oi_upd_get, H. destruct (N.eqb_spec i j); cbn; [subst|]; eauto using oinst_le_refl.
   - intros j H. rewrite oi_upd_get, H. now destruct (N.eqb i j).
   - intros n r H. rewrite oi_upd_onm. eauto.
   - intros n H. now rewrite oi_upd_onm.
-  - unfold oi_upd. now destruct (get i (oi o)).
+  - now rewrite oi_upd_o_cnt.
   - unfold oi_upd. destruct (get i (oi o)) eqn:E; [|reflexivity]. cbn. eapply keys_set_same; eauto.
+  - intros _. apply oi_upd_o_lk.
 Qed.
 
-Lemma on_upd_o_cnt n f o : o_cnt (on_upd n f o) = o_cnt o.
-Proof. unfold on_upd. now destruct (get n (onm o)). Qed.
-
-Lemma ole_on_upd e n f o : (forall r, r_ready r = true -> r_ready (f r) = true) -> ole e o (on_upd n f o).
+Lemma ole_on_upd e c n f o : (forall r, r_ready r = true -> r_ready (f r) = true) -> ole e c o (on_upd n f o).
 Proof.
   intros Hf. constructor.
   - intros j y H. rewrite on_upd_oi. eauto using oinst_le_refl.
   - intros j H. now rewrite on_upd_oi.
   - intros m r H. rewrite on_upd_get, H. destruct (N.eqb n m); cbn; eauto.
   - intros m H. rewrite on_upd_get, H. now destruct (N.eqb n m).
-  - apply on_upd_o_cnt.
+  - now rewrite on_upd_o_cnt.
   - now rewrite on_upd_oi.
+  - intros _. apply on_upd_o_lk.
 Qed.
 
-Lemma ole_fold_oi_upd e (f : oinst -> oinst) l :
-  (forall i y, oinst_le e i y (f y)) -> forall o, ole e o (fold_left (fun o i => oi_upd i f o) l o).
+Lemma ole_fold_oi_upd e c (f : oinst -> oinst) l :
+  (forall i y, oinst_le e c i y (f y)) -> forall o, ole e c o (fold_left (fun o i => oi_upd i f o) l o).
 Proof.
   intros Hf. induction l as [|a l IH]; intros o; cbn; [apply ole_refl|].
-  eapply ole_trans; [apply (ole_oi_upd e a f o (Hf a))|apply IH].
+  eapply ole_trans; [apply (ole_oi_upd e c a f o (Hf a))|apply IH].
 Qed.
 
-Lemma ole_refresh e o : ole e o (refresh_succ o).
+Lemma ole_refresh e c o : ole e c o (refresh_succ o).
 Proof.
   constructor; try reflexivity; eauto.
   - intros j y H. rewrite refresh_get, H. cbn. eexists; split; [reflexivity|].
     destruct (_ && _); cbn; [|apply oinst_le_refl]. unfold oinst_le; cbn. repeat split; auto.
+    exists []. rewrite app_nil_r. auto.
   - intros j H. now rewrite refresh_get, H.
   - unfold refresh_succ. cbn. apply (keys_map_snd (fun p => if o_ended (snd p) && (r_code (on_get o (o_nm (snd p))) =? 0)%Z then snd p <| o_succ := true |> else snd p)).
 Qed.
@@ -231,29 +232,34 @@ Qed.
 Ltac ole_fin :=
   intros; unfold oinst_le; cbn; repeat split; auto;
   try (destruct_matches; cbn; auto);
-  try (right; eexists; split; reflexivity).
+  try solve [intros; discriminate | intros; congruence];
+  try solve [right; eexists; split; reflexivity];
+  try solve [right; split; [reflexivity|eexists; reflexivity]];
+  try solve [exists []; rewrite app_nil_r; auto];
+  try solve [eexists; split; [reflexivity|right; eauto]].
 
 Ltac ole_close :=
   repeat first
   [ apply ole_refl
   | match goal with
-    | |- ole ?e ?o (oi_upd ?i ?f ?X) =>
-        apply (ole_trans e o X); [|apply ole_oi_upd; ole_fin]
-    | |- ole ?e ?o (on_upd ?n ?f ?X) =>
-        apply (ole_trans e o X); [|apply ole_on_upd; intros; cbn; try (destruct_matches; cbn); auto]
-    | |- ole ?e ?o (fold_left (fun o i => oi_upd i ?f o) ?l ?X) =>
-        apply (ole_trans e o X); [|apply ole_fold_oi_upd; ole_fin]
-    | |- ole ?e ?o (RecordSet.set _ _ ?X) =>
-        apply (ole_trans e o X); [|apply ole_eq; reflexivity]
+    | |- ole ?e ?c ?o (oi_upd ?i ?f ?X) =>
+        apply (ole_trans e c o X); [|apply ole_oi_upd; ole_fin]
+    | |- ole ?e ?c ?o (on_upd ?n ?f ?X) =>
+        apply (ole_trans e c o X); [|apply ole_on_upd; intros; cbn; try (destruct_matches; cbn); auto]
+    | |- ole ?e ?c ?o (fold_left (fun o i => oi_upd i ?f o) ?l ?X) =>
+        apply (ole_trans e c o X); [|apply ole_fold_oi_upd; ole_fin]
+    | |- ole ?e ?c ?o (RecordSet.set _ _ ?X) =>
+        apply (ole_trans e c o X); [|apply ole_eq; cbn; try reflexivity; try lia; try (intros Hq; exfalso; eapply Hq; reflexivity)]
     end ].
 
-Lemma obs_step_ole cs o th e : (forall i n, e <> ENewInst i n) -> ole e o (obs_step cs o (th, e)).
+Lemma obs_step_ole cs o th e : (forall i n, e <> ENewInst i n) -> ole e (o_cnt o) o (obs_step cs o (th, e)).
 Proof.
   intros Hne. unfold obs_step. eapply ole_trans; [|apply ole_refresh].
   destruct e; cbn [fst snd];
   try (exfalso; eapply Hne; reflexivity);
   try (destruct (ev_inst o th _) eqn:Ev);
   try match goal with |- context[match ?b with true => _ | false => _ end] => destruct b end;
+  try match goal with |- context[match ?b with Some _ => _ | None => _ end] => destruct b end;
   unfold note_late_commit;
   repeat match goal with |- context[if ?b then _ else _] => destruct b end;
   try apply ole_refl; ole_close.
@@ -262,38 +268,106 @@ Qed.
 
 Definition new_oinst (o : obs) (th : tid) (n : name) : oinst :=
   mkOI n (o_cnt o) 0 false None None false false false false false false false 0 false false
-       (match get th (o_api o) with Some OpRun | None => false | Some _ => true end) false false.
+       (match get th (o_api o) with Some OpRun | None => false | Some _ => true end) false false false [].
 
 Lemma obs_step_new cs o th i n :
-  exists o1, ole (ENewInst i n) o1 (obs_step cs o (th, ENewInst i n)) /\
-             oi o1 = set i (new_oinst o th n) (oi o) /\ onm o1 = onm o /\ o_cnt o1 = S (o_cnt o).
+  exists o1, (forall c, ole (ENewInst i n) c o1 (obs_step cs o (th, ENewInst i n))) /\
+             oi o1 = set i (new_oinst o th n) (oi o) /\ onm o1 = onm o /\ o_cnt o1 = S (o_cnt o) /\ o_lk o1 = o_lk o.
 Proof.
-  unfold obs_step. cbn [fst snd ev_inst]. eexists. split; [apply ole_refresh|]. cbn. repeat split; reflexivity.
+  unfold obs_step. cbn [fst snd ev_inst]. eexists. split; [intros c; apply ole_refresh|]. cbn. repeat split; reflexivity.
+Qed.
+
+Lemma cnt_regadd cs o th i n : o_cnt (obs_step cs o (th, ERegAdd i n)) = S (o_cnt o).
+Proof. unfold obs_step. cbn [fst snd ev_inst]. change (o_cnt (refresh_succ ?X)) with (o_cnt X). now rewrite oi_upd_o_cnt. Qed.
+
+Lemma lk_regget cs o th n : o_lk (obs_step cs o (th, ERegGet n None)) = set th (n, o_cnt o) (o_lk o).
+Proof. reflexivity. Qed.
+
+(* the registration counter recorded with a missed lookup *)
+Definition miss_bound (o : obs) (th : tid) (k : name) : nat :=
+  match get th (o_lk o) with
+  | Some (k', b) => if N.eqb k' k then b else o_cnt o
+  | None => o_cnt o
+  end.
+
+Lemma miss_bound_le o th k : Oinv o -> miss_bound o th k <= o_cnt o.
+Proof.
+  intros HO. unfold miss_bound. destruct (get th (o_lk o)) as [[k' b]|] eqn:E; [|lia].
+  destruct (N.eqb k' k); [|lia]. eapply (oi_lk _ HO); eauto.
+Qed.
+
+Lemma depwait_spec cs o th k f j y' :
+  get j (oi (obs_step cs o (th, EDepWait k f))) = Some y' ->
+  exists y, get j (oi o) = Some y /\
+    (o_waits y' = o_waits y \/ (get th (o_th o) = Some j /\ o_waits y' = o_waits y ++ [(k, f, miss_bound o th k)])).
+Proof.
+  unfold obs_step. cbn [fst snd ev_inst]. destruct (get th (o_th o)) as [i|] eqn:Et.
+  - rewrite refresh_get, oi_upd_get. destruct (N.eqb_spec i j).
+    + subst j. destruct (get i (oi o)) as [y|]; cbn; [|discriminate]. intros Q. injection Q as <-.
+      exists y. split; [reflexivity|]. right. split; [reflexivity|]. destruct (_ && _); reflexivity.
+    + destruct (get j (oi o)) as [y|]; cbn; [|discriminate]. intros Q. injection Q as <-.
+      exists y. split; [reflexivity|]. left. destruct (_ && _); reflexivity.
+  - rewrite refresh_get. destruct (get j (oi o)) as [y|]; cbn; [|discriminate]. intros Q. injection Q as <-.
+    exists y. split; [reflexivity|]. left. destruct (_ && _); reflexivity.
+Qed.
+
+Lemma ole_inv e c o o' j y' : ole e c o o' -> get j (oi o') = Some y' -> exists y, get j (oi o) = Some y /\ oinst_le e c j y y'.
+Proof.
+  intros OL H. destruct (get j (oi o)) as [y|] eqn:E.
+  - destruct (ole_oi _ _ _ _ OL j y E) as (y2 & E2 & L). exists y. split; [reflexivity|congruence].
+  - rewrite (ole_none _ _ _ _ OL j E) in H. discriminate.
 Qed.
 
 Lemma Oinv_step cs o te : Oinv o -> Oinv (obs_step cs o te).
 Proof.
-  intros [Hn Hi]. destruct te as [th e].
+  intros HO. destruct te as [th e].
   assert (D : (forall i n, e <> ENewInst i n) \/ exists i n, e = ENewInst i n).
   { destruct e; try (left; intros; discriminate). right; eauto. }
   destruct D as [D|(i & n & ->)].
-  - destruct (obs_step_ole cs o th e D) as [A1 A2 A3 A4 A5 A6]. split; [now rewrite A6|].
-    intros j y' H'. rewrite A5. destruct (get j (oi o)) as [y|] eqn:E.
-    + destruct (A1 j y E) as (y2 & H2 & L). assert (y2 = y') by congruence. subst y2.
-      destruct L as (_ & Li & _). rewrite Li. eauto.
-    + rewrite (A2 j E) in H'. discriminate.
-  - destruct (obs_step_new cs o th i n) as (o1 & [A1 A2 A3 A4 A5 A6] & B1 & B2 & B3). split.
-    + rewrite A6, B1. now apply NoDup_keys_set.
-    + intros j y' H'. rewrite A5, B3. destruct (get j (oi o1)) as [y|] eqn:E.
-      * destruct (A1 j y E) as (y2 & H2 & L). assert (y2 = y') by congruence. subst y2.
-        destruct L as (_ & Li & _). rewrite Li. rewrite B1, get_set in E. destruct (N.eqb i j).
-        -- injection E as <-. cbn. lia.
-        -- specialize (Hi j y E). lia.
-      * rewrite (A2 j E) in H'. discriminate.
+  - pose proof (obs_step_ole cs o th e D) as OL. pose proof (ole_cnt _ _ _ _ OL) as Hc. constructor.
+    + rewrite (ole_keys _ _ _ _ OL). apply (oi_nodup _ HO).
+    + intros j y' H'. destruct (ole_inv _ _ _ _ _ _ OL H') as (y & E & L).
+      destruct L as (_ & _ & _ & [Li|(Li & n & ->)] & _).
+      * rewrite Li. pose proof (oi_idx _ HO j y E). lia.
+      * rewrite Li, cnt_regadd. lia.
+    + intros j y' w H' Hw.
+      assert (Dw : (forall k f, e <> EDepWait k f) \/ exists k f, e = EDepWait k f).
+      { destruct e; try (left; intros; discriminate). right; eauto. }
+      destruct Dw as [Dw|(k & f & ->)].
+      * destruct (ole_inv _ _ _ _ _ _ OL H') as (y & E & L).
+        destruct L as (_ & _ & _ & _ & _ & _ & _ & _ & _ & _ & (l & El & [->|(k & f & Q)])); [|exfalso; eapply Dw; eauto].
+        rewrite app_nil_r in El. rewrite El in Hw. pose proof (oi_wb _ HO j y w E Hw). lia.
+      * destruct (depwait_spec _ _ _ _ _ _ _ H') as (y & E & [Q|[_ Q]]); rewrite Q in Hw.
+        -- pose proof (oi_wb _ HO j y w E Hw). lia.
+        -- apply in_app_or in Hw. destruct Hw as [Hw|[<-|[]]]; [pose proof (oi_wb _ HO j y w E Hw); lia|].
+           cbn [snd]. pose proof (miss_bound_le o th k HO). lia.
+    + intros t k b H.
+      assert (Dl : (forall n, e <> ERegGet n None) \/ exists n, e = ERegGet n None).
+      { destruct e; try (left; intros; discriminate). destruct found; [left; intros; discriminate|right; eauto]. }
+      destruct Dl as [Dl|(n & ->)].
+      * rewrite (ole_lk _ _ _ _ OL Dl) in H. pose proof (oi_lk _ HO t k b H). lia.
+      * rewrite lk_regget, get_set in H. destruct (N.eqb th t).
+        -- injection H as <- <-. exact Hc.
+        -- pose proof (oi_lk _ HO t k b H). lia.
+  - destruct (obs_step_new cs o th i n) as (o1 & OL0 & B1 & B2 & B3 & B4). pose proof (OL0 (o_cnt o)) as OL.
+    pose proof (ole_cnt _ _ _ _ OL) as Hc. constructor.
+    + rewrite (ole_keys _ _ _ _ OL), B1. apply NoDup_keys_set, (oi_nodup _ HO).
+    + intros j y' H'. destruct (ole_inv _ _ _ _ _ _ OL H') as (y & E & L).
+      destruct L as (_ & _ & _ & [Li|(_ & n0 & Q)] & _); [|discriminate Q]. rewrite Li.
+      rewrite B1, get_set in E. destruct (N.eqb i j).
+      * injection E as <-. cbn. lia.
+      * pose proof (oi_idx _ HO j y E). lia.
+    + intros j y' w H' Hw. destruct (ole_inv _ _ _ _ _ _ OL H') as (y & E & L).
+      destruct L as (_ & _ & _ & _ & _ & _ & _ & _ & _ & _ & (l & El & [->|(k & f & Q)])); [|discriminate Q].
+      rewrite app_nil_r in El. rewrite El in Hw. rewrite B1, get_set in E. destruct (N.eqb i j).
+      * injection E as <-. cbn in Hw. contradiction.
+      * pose proof (oi_wb _ HO j y w E Hw). lia.
+    + intros t k b H. rewrite (ole_lk _ _ _ _ OL) in H by (intros; discriminate). rewrite B4 in H.
+      pose proof (oi_lk _ HO t k b H). lia.
 Qed.
 
 Lemma Oinv_obs0 cs : Oinv (obs0 cs).
-Proof. split; cbn; [constructor|discriminate]. Qed.
+Proof. constructor; cbn; try discriminate. constructor. Qed.
 
 (* ---- what particular events make the observer record ------------------------------------------------------ *)
 Ltac gain_tac :=
@@ -346,4 +420,12 @@ Lemma gain_probe cs o th i y r : get i (oi o) = Some y -> get (o_nm y) (onm o) =
 Proof.
   intros Hy Hr. gain_tac. change (onm (refresh_succ ?X)) with (onm X). unfold oi_get. rewrite Hy.
   rewrite on_upd_get, N.eqb_refl, Hr. cbn. eexists; split; reflexivity.
+Qed.
+
+Lemma gain_regadd cs o th i n y : get i (oi o) = Some y ->
+  exists y', get i (oi (obs_step cs o (th, ERegAdd i n))) = Some y' /\ o_reg y' = true /\ o_nm y' = o_nm y.
+Proof.
+  intros Hy. gain_tac. rewrite refresh_get, oi_upd_get, N.eqb_refl.
+  match goal with |- context[get i (oi ?X)] => change (oi X) with (oi o) end. rewrite Hy. cbn.
+  eexists; split; [reflexivity|]. destruct (_ && _); split; reflexivity.
 Qed.
